@@ -561,7 +561,7 @@ fn leg_b(o: &Opts) -> i32 {
         }
     };
     let sz = sizes(&o.tier);
-    let all = build(&CorpusSpec { seed: o.seed, generated: sz.generated, mutated: sz.mutated }, &o.repo, &o.verif);
+    let all = build(&CorpusSpec { seed: o.seed, generated: sz.generated, mutated: sz.mutated, layout: sz.layout }, &o.repo, &o.verif);
     // small programs (by text length) that the golden run accepted for at least one argument map
     let mut idx: Vec<usize> = (0..all.len())
         .filter(|i| (0..all[*i].args.len()).any(|a| matches!(golden.get(&(*i, a, false)), Some(Outcome::Ok { .. }))))
@@ -569,7 +569,8 @@ fn leg_b(o: &Opts) -> i32 {
     idx.sort_by_key(|i| (all[*i].text.len(), *i));
     let thorough = o.tier == "thorough";
     let small: Vec<usize> = idx.iter().copied().take(if thorough { 60 } else { 24 }).collect();
-    let large: Vec<usize> = idx.iter().copied().rev().take(if thorough { 12 } else { 3 }).collect();
+    // "large" for leg B: the largest programs below 16 kB of text (bigger ones only cost steps)
+    let large: Vec<usize> = idx.iter().copied().rev().filter(|i| all[*i].text.len() < 16_000).take(if thorough { 12 } else { 3 }).collect();
     let runs: u64 = if thorough { 6000 } else { 320 };
     let schedules_per_scenario = 6;
     let mut rep = Report::new(&o.out, "B", o.shard);
